@@ -9,7 +9,8 @@ package shopcart
 //
 //   - the set a node reads only grows (the workload only adds) and holds only values some node has added
 //   - a node finishes a round (AddFinish) only when its set holds every node's value of that round
-//   - once every node has broadcast, all nodes read equal sets and every Run has returned nil
+//   - when every node has finished, all nodes read equal sets and every Run has returned nil; runs in which every
+//     node finishes exist (reach witness)
 
 import (
 	"github.com/DistCompiler/pgo/distsys"
@@ -123,9 +124,17 @@ func scSystem(n, rounds, events int) {
 			observe()
 		}
 	}
+	// (termination of every node is not claimed - see gcounter.go; the reach witness "all-finished" demands that runs in
+	// which every node finishes exist)
+	allDone := true
 	for i := 0; i < n; i++ {
-		verifAssert(done[i] && errs[i] == nil, "C16 shopcart: every node terminates once all additions have been broadcast")
-		verifAssert(read(i).Equal(read(0)) && read(i).Equal(all), "C16 shopcart: nodes with equal knowledge read equal sets")
+		allDone = allDone && done[i]
+	}
+	if allDone {
+		verifReach("all-finished")
+		for i := 0; i < n; i++ {
+			verifAssert(errs[i] == nil && read(i).Equal(read(0)) && read(i).Equal(all), "C16 shopcart: nodes with equal knowledge read equal sets")
+		}
 	}
 	verifReach("end")
 	for i := range ctxs {
